@@ -56,6 +56,7 @@ def strategy_impl(draw, tier):
         "bsrc": draw(st.sampled_from(["grid", "call"])),
         "face_order": list(draw(st.permutations(list(range(nf))))),
         "reverse_axes": draw(st.booleans()),
+        "flag_style": draw(st.sampled_from(["python", "python", "numpy", "int"])),   # type of the reverse flags / face numbers in the links
         "via_2d": draw(st.booleans()),
         "carry_coords": draw(st.booleans()),   # the inputs carry the dataset's coordinates (face labels included) or none
     }
@@ -129,7 +130,7 @@ def make_grid(case):
     if case["bsrc"] == "grid":
         kw = {"boundary": dict(case["bnd"]), "fill_value": dict(case["fill"])}
     return Grid(ds, coords={"X": {"center": "xc", "left": "xl"}, "Y": {"center": "yc", "left": "yl"}},
-                face_connections=gen.table_to_xgcm(case["table"], face_order=case.get("face_order"), reverse_axes=case.get("reverse_axes", False)),
+                face_connections=gen.table_to_xgcm(case["table"], face_order=case.get("face_order"), reverse_axes=case.get("reverse_axes", False), flag_style=case.get("flag_style", "python")),
                 autoparse_metadata=False, periodic=False, **kw)
 
 
